@@ -2,6 +2,7 @@ import Driver.Util
 import Driver.Langid
 import Driver.Escape
 import Driver.Pipeline
+import Driver.Eval
 import Driver.Context
 import Driver.Router
 import Driver.FormatCache
@@ -20,6 +21,7 @@ def dispatch (j : Json) : R Json := do
   | "range.new" => opRangeNew j
   | "key.new" => opKeyNew j
   | "config.new" => opConfigNew j
+  | "eval.batch" => opEvalBatch j
   | "ctx.resolve" => opCtxResolve j
   | "ctx.ops" => opCtxOps j
   | "router.locale" => opRouterLocale j
